@@ -276,7 +276,23 @@ class C13(Check):
         # the N = 1000 matrix: flavour x validator x dispatcher (12 cells)
         if tier != 'quick':
             return None
-        return self._matrix([1000]) + self._growth_matrix(200)
+        return self._matrix([1000]) + self._growth_matrix(200) + self._vpairs()
+
+    def _vpairs(self):
+        """every ordered pair of methods that share one validator instance: one call of the first (conforming or not), then the
+        second probed with every argument of the alphabet"""
+        groups = [(['users.get', 'posts.get', 'users.get_many'], [[1], ['x']]), (['pick.int', 'pick.bool', 'pick.float'], [[], [2]]),
+                  (['ip.strict', 'ip.lax'], [['1.2.3.4'], ['not-an-ip']])]
+        args = [[1], ['1'], ['x'], [[1, 2]], [None], [], [1.5], [{'a': 1}], ['1.2.3.4'], ['not-an-ip']]
+        out = []
+        for names, hargs in groups:
+            for a in names:
+                for b in names:
+                    if a != b:
+                        for k, ha in enumerate(hargs):
+                            for j, pa in enumerate(args):
+                                out.append({'kind': 'vhistory', 'dispatcher': 'sync' if (k + j) % 2 else 'async', 'history': [[a, ha]], 'probe': [b, pa], 'coerce': (j + k) % 3 != 0})
+        return out
 
     def _growth_matrix(self, n):
         out = []
